@@ -82,6 +82,12 @@ def loopFuel {σ ρ : Type} (body : σ → Res (LStep σ ρ)) : Nat → σ → R
   match slice? x lo hi with
   | some s => .ok s
   | none => .panic site
+/-- `(&mut x[lo..hi]).write_all(bytes)`: the slice bounds panic out of range; bytes that do not fit make
+    `write_all` fail, which the `.expect(..)` / `.unwrap()` behind it turns into a panic -/
+@[inline] def writeAt (x : Bytes) (lo hi : Nat) (bytes : Bytes) (site : String) : Res Bytes :=
+  if lo ≤ hi ∧ hi ≤ x.length ∧ bytes.length ≤ hi - lo then
+    .ok (x.take lo ++ bytes ++ x.drop (lo + bytes.length))
+  else .panic site
 /-- `v.resize(n, fill)` -/
 @[inline] def resizeB (x : Bytes) (n fill : Nat) : Bytes :=
   if n ≤ x.length then x.take n else x ++ List.replicate (n - x.length) (UInt8.ofNat fill)
